@@ -13,26 +13,28 @@ from harness.common import Ck, coq_bytes, coq_list, parse_coq_N_list
 from translate import c13_vpk
 
 MANIFEST = dict(
-    technique='Rocq proof (directory-tree codec round trip; refinement of the VPK state machine to a finite map by an '
-              'invariant over all operation histories) + ast translator for format constants/placement sites + '
-              'vm_compute correspondence incl. independent decode of the on-disk directory + oracle search on real temp dirs',
-    text='Theorems in Props/C13.v: for every format instance with in-range constants, load_dirfile(write_dirfile(table, footer)) '
-         'returns the table (offset normalised when nothing is stored outside the tree) and the footer; for every '
-         'configuration (singular or _dir archive, every dir_limit, every preload cap <= 65535) and EVERY finite history of '
-         'new_file/add_file/write/del/write_dirfile/reopen(r,w,a), if no write_dirfile overflowed a 32-bit field, the result '
-         'codes equal those of a plain map and at every point the listing, the bytes read and verify() of every file equal '
-         'the map (so in particular after write_dirfile + reopen), under the explicit premise that CRC32 does not collide on '
-         'the data of the history; read-only archives reject every mutation unchanged; the three name forms of a path '
-         'resolve to the same key. The format constants, struct layouts, sentinel tests, the footer placement site and the '
-         'index/name validation sites are regenerated from vpk.py on every run and kernel-checked as instance obligations; '
-         'the model is run against the implementation on random histories on real directories (result codes, per-file bytes, '
-         'verify, byte-exact _dir file and archives via length+CRC32), and the model decoder decodes the bytes the '
-         'implementation wrote (plus truncated files).',
-    note='Trusted: Coq kernel + vm_compute, translate/c13_vpk.py, hand models Fmt/VpkDir.v, SM/Vpk.v, Fmt/VpkName.v (tied by '
-         'differential runs), zlib.crc32 (a Section variable in the theorems; its chaining crc32(b, crc32(a)) = crc32(a+b) '
-         'is assumed), posixpath.normpath (a Section variable for name_forms_agree), the OS append/seek semantics. VPK '
-         'version 2 headers, the root= argument, add_folder/extract_all and VPKFileSystem are outside the model. File names '
-         'whose last component ends in "." are listed without the dot (known finding name-trailing-dot).',
+    technique='Rocq proof (directory-tree codec round trip; write_dirfile+reopen preserves every entry for every placement; '
+              'one write reads back; read-only rejection; name forms) + ast translator for format constants/placement sites + '
+              'vm_compute correspondence of a whole-history state machine incl. independent decode of the on-disk directory + '
+              'oracle search on real temp dirs',
+    text='Theorems in Props/C13.v: for every format instance with in-range constants load_dirfile(write_dirfile(tree, footer)) '
+         'returns the same entries (offset normalised when nothing is stored outside the tree) and footer; grouping/sorting the '
+         'table for writing is a permutation of it; after one FileInfo.write the file reads back exactly the data and verifies, '
+         'for every placement (preload, directory tail, numbered archive, singular), dir_limit and size; write_dirfile followed by '
+         'reopening in r/a mode succeeds and yields exactly the same files with the same bytes, verify() and checksums; read-only '
+         'archives reject every mutation unchanged; the three name forms of a path resolve to the same key (for every normpath). '
+         'The format constants, struct layouts, sentinel tests, the footer placement site, the preload cap and the index/name '
+         'validation sites are regenerated from vpk.py on every run and kernel-checked as instance obligations. The whole-history '
+         'statement (any sequence of operations agrees with a plain map) is NOT proved by induction: the executable model SM/Vpk.v '
+         'is run against the implementation on random histories on real directories (result codes, per-file bytes, verify, '
+         'byte-exact _dir file and archives via length+CRC32), and the model decoder decodes the bytes the implementation wrote '
+         '(plus damaged copies); an oracle compares the implementation with a dict over histories crossing every placement.',
+    note='Trusted: Coq kernel + vm_compute (incl. Uint63 for the test CRC-32), translate/c13_vpk.py, hand models Fmt/VpkDir.v, '
+         'SM/Vpk.v, Fmt/VpkName.v (tied by differential runs), zlib.crc32 (a Section variable in the theorems; its chaining '
+         'crc32(b, crc32(a)) = crc32(a+b) is assumed), posixpath.normpath (a parameter of name_forms_agree), OS append/seek '
+         'semantics. CRC collisions: FileInfo.write skips a write whose checksum equals the stored one (theorem premise crc d <> '
+         'stored crc). VPK version 2 headers, the root= argument, add_folder/extract_all and VPKFileSystem are outside the model. '
+         'File names whose last component ends in "." are listed without the dot (known finding name-trailing-dot).',
 )
 
 IMPORTS = ['Coq.Lists.List', 'Coq.NArith.NArith', 'SV.Fmt.VpkDir', 'SV.SM.Vpk', 'SV.SM.VpkCorr', 'SV.Gen.VpkPlace_gen']
@@ -451,7 +453,7 @@ CORPUS = [
 
 
 def search(ck: Ck) -> None:
-    n_small = ck.budget(260, 6000)
+    n_small = ck.budget(400, 6000)
     n_big = ck.budget(14, 300)
     found: dict[str, tuple] = {}
     cases = list(CORPUS)
@@ -544,7 +546,7 @@ def c_dg(d) -> str:
 def corr_machine(ck: Ck) -> None:
     """SM/Vpk.v run on the same histories as the implementation: per-op code and summary, final per-file digests,
     byte-exact directory file and archives (length + CRC32)."""
-    n_small = ck.budget(150, 3000)
+    n_small = ck.budget(220, 3000)
     n_big = ck.budget(3, 40)
     cases = [c for c in CORPUS]
     for _ in range(n_small):
@@ -606,7 +608,7 @@ def corr_decode(ck: Ck) -> None:
     """Independent decode: the bytes the implementation wrote (and truncations of them) through the model decoder,
     against what the implementation itself loads from those bytes."""
     from srctools.vpk import VPK
-    n = ck.budget(70, 1200)
+    n = ck.budget(100, 1200)
     lits = []
     nbad_files = 0
     d = tempfile.mkdtemp(prefix='c13d_', dir=os.environ.get('VERIF_SCRATCH', '/var/tmp'))
@@ -735,8 +737,9 @@ def run(ck: Ck) -> None:
     ck.trusted.append('hand-written models Fmt/VpkDir.v, SM/Vpk.v, Fmt/VpkName.v (tied by differential correspondence on every run); '
                       'zlib.crc32 incl. its chaining property; posixpath.normpath')
     ck.assumptions += [
-        'CRC-32 does not collide on the data values of a history (explicit premise crc_inj_on of c13_vpk_refines_map: FileInfo.write skips a write whose checksum equals the stored one)',
-        'no archive or directory field exceeds 32 bits (write_dirfile would raise struct.error; the theorem is stated for runs where it does not)',
+        'CRC-32 of the new data differs from the stored checksum unless the data is the same (premise of c13_write_reads: FileInfo.write skips a write whose checksum equals the stored one)',
+        'no archive or directory field exceeds 32 bits (write_dirfile would raise struct.error; c13_save_reopen_reads is stated for saves that succeed)',
+        'whole histories are covered by correspondence and search, not by an inductive theorem',
         'fresh directory: no numbered archive files exist before the history starts; one process at a time',
     ]
     ok_t = ck.translate('VpkPlace_gen', c13_vpk.translate)
@@ -774,8 +777,9 @@ def run(ck: Ck) -> None:
     if 'name-unrepresentable' in keys:
         ck.explain('instance:unrepresentable_names_rejected')
     if keys - {'name-trailing-dot'}:
-        ck.explain('correspondence:machine')
-        ck.explain('instance:instance_satisfies_theorem_premises')
+        # a concrete failing history on the implementation explains a broken format/site obligation or correspondence
+        ck.explain('correspondence:')
+        ck.explain('instance:')
 
 
 def replay(data: dict) -> int:
